@@ -14,6 +14,13 @@ HISTORIES = [
     (["new", "begin:61", "begin:62", "commit:61:5", "cancel:62", "readcard"], 2),
     (["new", "configure", "readcard"], 1),
 ]
+# configuration / terminal variants of the start-up: the terminal reports ANOTHER terminal id (the 06 1B set-terminal-id exchange runs,
+# with faults at its items too), and an EMPTY configured terminal id (the client falls back to 00000000)
+VARIANTS = [
+    (["new", "readcard"], 1, dict(ttid="11111111")),
+    (["new", "readcard"], 1, dict(cfg_tid="", ttid="00000000")),
+    (["new", "readcard"], 1, dict(cfg_tid="", ttid="52523535")),
+]
 
 
 def baseline(spec, cfg, calls, queues=None, ttid=None):
@@ -84,7 +91,9 @@ def run(ctx, out):
     # The same against a chatty terminal (two intermediate statuses before every final packet).
     def chatty(cfg):
         a0 = G.Abs(spec, cfg, {}, None, None)
-        return {kind: [[P.intermediate(), P.intermediate()] + a0.replies(kind)] * 60 for kind in ("06c0", "0693", "0650", "0622", "0623", "0625")}
+        # (read_card's reply set has no print packets; the others get an intermediate status, a print line and a print text block)
+        return {kind: [([P.intermediate(), P.intermediate()] if kind == "06c0" else [P.intermediate(), P.print_line("chatty"), P.print_text_block()]) + a0.replies(kind)] * 60
+                for kind in ("06c0", "0693", "0650", "0622", "0623", "0625")}
     for calls, mx in HISTORIES:
         cfg = G.default_cfg(max=mx)
         for q in (None, chatty(cfg)):
@@ -96,6 +105,16 @@ def run(ctx, out):
                     for f in faults:
                         ops.append(G.op_line(cfg, calls, G.script_str(cfg, q, {(0, j): f})))
                         meta.append((cfg, a, j, f, "single"))
+    for calls, mx, var in VARIANTS:
+        cfg = G.default_cfg(max=mx)
+        if "cfg_tid" in var:
+            cfg = dict(cfg, tid=var["cfg_tid"])
+        ttid = var.get("ttid")
+        a = baseline(spec, cfg, calls, None, ttid)
+        for j in range(len(a.trigger)):
+            for f in faults:
+                ops.append(G.op_line(cfg, calls, G.script_str(cfg, None, {(0, j): f}, None, None, ttid)))
+                meta.append((cfg, a, j, f, "single"))
     # wrong serial on the first connection(s): never used for commands
     for calls, mx in HISTORIES[:2]:
         cfg = G.default_cfg(max=mx)
